@@ -463,11 +463,17 @@ fn make_summary_txs(
                 // Copy, and add add SFL
                 match &mut unsum_tx.action_specifics {
                     crate::portfolio::TxActionSpecifics::Sell(sell_specs) => {
+                        // A value the user forced ('!') stays forced, or the
+                        // summary is rejected when it is read back.
+                        let force = sell_specs
+                            .specified_superficial_loss
+                            .as_ref()
+                            .map_or(false, |s| s.force);
                         sell_specs.specified_superficial_loss = Some(SFLInput {
                             superficial_loss: LessEqualZeroDecimal::from(
                                 sfl.superficial_loss,
                             ),
-                            force: false,
+                            force,
                         });
                     }
                     _ => {
